@@ -314,6 +314,7 @@ func runC11(c *eng.Ctx) {
 
 	c.Rule("ANCHOR", mfT+".FlushSeries{startAt}", func() { flusherAnchors(c) })
 	c.Rule("PROV", mgT+".Merge{field readers belong to one metric}", func() { mergeReadersPerMetric(c) })
+	c.Rule("PASS", "tsdb/tblstore/metricsdata.seriesMerger.merge{one FlushField per target field}", func() { flushFieldPerTargetField(c) })
 	c.Rule("PASS", "index.forwardIndex.GetGroupingContext{intersection per group-by tag key}", func() { groupingIntersectsPerTagKey(c) })
 	c.Rule("PROV", "tsdb/memdb.memoryDatabase.createdTime{unique per memory database}", func() { memdbIdentityUnique(c) })
 	c.Rule("RESET", mfT+".reset{per-metric state of the block writer}", func() { flusherMetricReset(c) })
